@@ -38,4 +38,9 @@ BUILT = {
   level='exploration',
   text='A type and a valid initializer for it are drawn together with the value 6.7.9 prescribes (designators incl. nested/out-of-order/resumption, brace elision, strings, unions, unknown bounds, unnamed bit-fields, address constants with offsets through member/array paths). The same text initialises objects of all four storage kinds (automatic ones in a frame dirtied with 0xAA); every dump must equal the model and both references.',
   note='trusts the Python model only when gcc and clang both agree with it; D54 (re-initialising an aggregate with a braced list merges; pinned by the suite) recorded and excluded by construction'),
+ 'C09': dict(
+  technique='property-based differential testing: Hypothesis-generated macro definition sets + invocation texts (valid by construction); pp-token sequence of chibicc -E vs consensus of gcc -E -P and clang -E -P; termination limit',
+  level='exploration',
+  text='Definition sets over a 7-name pool (frequent self/mutual recursion), object- and function-like macros, #, ## (also in object-like bodies, invocations as right operands), all variadic forms, redefinition/#undef histories and invocations with nested calls, empty arguments, parenthesised commas and line breaks; the emitted token sequence must equal both references and preprocessing must terminate.',
+  note='trusts gcc/clang preprocessors where they agree; strings from # compared modulo white space only when the operand can hold expanded material; D25, D27 excluded by construction and D56 by its diagnostic (all recorded, counted)'),
 }
